@@ -102,13 +102,16 @@ def run_unit(spec_path, root, seed=None, canary=True, std_contracts=None, tag=""
     if g.scan["assume"] or g.scan["admit"]:
         res.status, res.reason = "undecided", "proof text contains assume()/admit() (%d/%d): refused" % (g.scan["assume"], g.scan["admit"])
         return res
-    path = os.path.join(BUILD, "%s%s.rs" % (name, tag))
+    # one directory per process: concurrent checks (other properties, other trees) never overwrite each other's generated files
+    rundir = os.path.join(BUILD, "run_%d" % os.getpid())
+    os.makedirs(rundir, exist_ok=True)
+    path = os.path.join(rundir, "%s%s.rs" % (name, tag))
     open(path, "w").write(g.text)
     res.gen_path = path
     canary_future = None
     if canary:
         import concurrent.futures as _cf
-        cpath = os.path.join(BUILD, "%s%s_canary.rs" % (name, tag))
+        cpath = os.path.join(rundir, "%s%s_canary.rs" % (name, tag))
         ctext = g.text.replace("\n} // verus!", "\nproof fn vx_canary() ensures false {}\n} // verus!")
         open(cpath, "w").write(ctext)
         _pool = _cf.ThreadPoolExecutor(max_workers=1)
